@@ -152,6 +152,19 @@ fn trees(three: bool) -> Vec<(E, bool)> {
     out.push((E::Cast(b(E::Index(b(col("a")), b(E::Lit(Lit::Int(1))))), "text"), true));
     out.push((E::Index(b(E::Array(vec![col("i"), col("j")])), b(E::Lit(Lit::Int(2)))), true));
     out.push((E::IsNull(b(E::Cast(b(col("t")), "int")), true), true));
+    // CASE nested in the condition, in the result and in the ELSE part of another CASE (and two levels deep)
+    {
+        let inner_bool = E::Case(vec![(col("p"), col("q"))], b(col("p")));
+        let inner_int = E::Case(vec![(col("q"), col("i"))], b(col("j")));
+        let one = E::Lit(Lit::Int(1));
+        out.push((E::Case(vec![(inner_bool.clone(), one.clone())], b(col("j"))), true));
+        out.push((E::Case(vec![(col("p"), inner_int.clone())], b(col("j"))), true));
+        out.push((E::Case(vec![(col("p"), col("i"))], b(inner_int.clone())), true));
+        out.push((E::Case(vec![(col("p"), inner_int.clone()), (col("q"), inner_int.clone())], b(inner_int.clone())), true));
+        out.push((E::Case(vec![(col("p"), E::Case(vec![(col("q"), inner_int.clone())], b(one.clone())))], b(col("j"))), true));
+        out.push((E::Bin(Bin::Add, b(E::Case(vec![(col("p"), inner_int.clone())], b(col("j")))), b(inner_int.clone())), true));
+        out.push((E::Bin(Bin::And, b(inner_bool.clone()), b(E::Not(b(inner_bool.clone())))), true));
+    }
     // unary / postfix forms stacked two deep over every kind of atom (column and literals), alone and as operand of a binary operator
     let atoms: Vec<E> = vec![col("i"), E::Lit(Lit::Int(1)), E::Lit(Lit::Real(1.5)), E::Lit(Lit::Text("7".into())), col("a"), col("t")];
     let wrap = |k: usize, x: E| -> E {
